@@ -36,6 +36,9 @@ TOL = 1e-10
 COQ_DEPS = ["Corr/EntropyCorr.vo", "Corr/RegenTac.vo"]
 
 
+EXTRA_OBLIGATIONS_ASYNC = True    # compiled while the correspondence runs
+
+
 def extra_obligations(tier):
     """Second tie (DESIGN 12.7): Step 2 of persistent_entropy.py (lengths, Shannon entropy, normalisation) is re-translated
     from the current source into real-valued Gallina functions that must be provably equal to Model/EntropyM.v's
